@@ -367,7 +367,7 @@ func (v *Validators) PayRewardsV3(height uint64, period int64) (moreRewards *big
 
 		stakes := v.bus.Candidates().GetStakes(validator.PubKey)
 		for _, stake := range stakes {
-			if stake.BipValue.Sign() == 0 {
+			if stake.BipValue.Sign() == 0 || validator.GetTotalBipStake().Sign() != 1 {
 				continue
 			}
 
@@ -493,7 +493,7 @@ func (v *Validators) PayRewardsV5Fix(height uint64, period int64) (moreRewards *
 
 		stakes := v.bus.Candidates().GetStakes(validator.PubKey)
 		for _, stake := range stakes {
-			if stake.BipValue.Sign() == 0 {
+			if stake.BipValue.Sign() == 0 || validator.GetTotalBipStake().Sign() != 1 {
 				continue
 			}
 
@@ -689,7 +689,7 @@ func (v *Validators) PayRewardsV5Bug(height uint64, period int64) (moreRewards *
 
 		stakes := v.bus.Candidates().GetStakes(validator.PubKey)
 		for _, stake := range stakes {
-			if stake.BipValue.Sign() == 0 {
+			if stake.BipValue.Sign() == 0 || validator.GetTotalBipStake().Sign() != 1 {
 				continue
 			}
 
@@ -905,7 +905,7 @@ func (v *Validators) PayRewardsV4(height uint64, period int64) (moreRewards *big
 
 		stakes := v.bus.Candidates().GetStakes(validator.PubKey)
 		for _, stake := range stakes {
-			if stake.BipValue.Sign() == 0 {
+			if stake.BipValue.Sign() == 0 || validator.GetTotalBipStake().Sign() != 1 {
 				continue
 			}
 
